@@ -187,7 +187,7 @@ func c05Alphabet(kind string) []c05Op {
 	case "mutators":
 		// few searches, every mutator: long histories of switches, sweeps, clock and replacements
 		ops = append(ops, c05Op{Kind: "search", Q: 0, O: 0}, c05Op{Kind: "search", Q: 0, O: 7}, c05Op{Kind: "search", Q: 3, O: 5})
-		mut("invalidate", "disable", "enable", "sweep", "adv-half", "adv-ttl")
+		mut("invalidate", "disable", "enable", "sweep", "adv-half", "adv-ttl", "update-inplace")
 		ops = append(ops, c05Op{Kind: "update", DB: 0}, c05Op{Kind: "update", DB: 1}, c05Op{Kind: "update", DB: 2})
 		return ops
 	case "wrappers":
@@ -336,6 +336,14 @@ func c05Run1(w *c05World, cs c05Case) (*lib.Violation, string) {
 			case "update":
 				cur = op.DB
 				mdb.UpdateDatabase(append([]Cmd{}, w.cmds[cur]...))
+			case "update-inplace":
+				// the caller edits the installed slice in place (databases A and C have the same size) and hands
+				// that very slice back: still a replacement of the database
+				if cur == 0 || cur == 2 {
+					cur = 2 - cur
+					copy(mdb.Database.Commands, w.cmds[cur])
+					mdb.UpdateDatabase(mdb.Database.Commands)
+				}
 			}
 		}
 	}()
@@ -530,7 +538,7 @@ func init() {
 	_ = strconv.Itoa
 	lib.Register(&lib.Check{
 		ID: "C05", Level: "model_checking",
-		Rule:      "sequence-mode exploration: every history ending in a search of length <=3 over the full alphabet (7 queries incl. case variant, padded variants, a typo and a 6-term query x 12 option settings = base + one single-field delta per SearchOptions field, + invalidate, disable, enable, sweep, advance TTL/2, advance TTL+1s, replace database A/B/C (C has A's size) = 93 operations) + every history of length <=5 (thorough 6) over 3 searches and all 9 mutators (long runs of switches, sweeps, clock advances and replacements) + every history of length <=3 (thorough 4) on a 40-entry database over 10 searches with limits {0,2,3,20,25} with and without NLP (limit-dependent re-rank window) and 5 mutators + every history of length <=4 (thorough 5) of the wrappers plan: searches on the wrapper under test and on a SECOND wrapper around another database in the same process (each must get its own database's uncached answer), a search with NLP and one with NLP plus a context boost on a word that is not in the query but among the terms the NLP stage adds (selected at run time so that the boost changes the answer), invalidate, replace, and a query that repeats one word of another + long lists (130 matching entries, limits 99..1000, every request asked three times) + (thorough) of length <=4 over the 38+8 most colliding operations; entry points SearchWithOptionsAndCache and SearchWithOptionsAndMonitoring; cold and warm start; virtual clock. After every search the caller scrambles the slice it was given (as the CLI's in-place re-sort does), and the answer must equal, bit for bit, SearchUniversal on a freshly loaded copy of the current commands. evaluations = histories executed on the real objects (= traces validated); non-trivial = histories with a distinct sequence of answers",
+		Rule:      "sequence-mode exploration: every history ending in a search of length <=3 over the full alphabet (7 queries incl. case variant, padded variants, a typo and a 6-term query x 12 option settings = base + one single-field delta per SearchOptions field, + invalidate, disable, enable, sweep, advance TTL/2, advance TTL+1s, replace database A/B/C (C has A's size) = 93 operations) + every history of length <=5 (thorough 6) over 3 searches and all 10 mutators (incl. an in-place edit of the installed command slice handed back to UpdateDatabase) (long runs of switches, sweeps, clock advances and replacements) + every history of length <=3 (thorough 4) on a 40-entry database over 10 searches with limits {0,2,3,20,25} with and without NLP (limit-dependent re-rank window) and 5 mutators + every history of length <=4 (thorough 5) of the wrappers plan: searches on the wrapper under test and on a SECOND wrapper around another database in the same process (each must get its own database's uncached answer), a search with NLP and one with NLP plus a context boost on a word that is not in the query but among the terms the NLP stage adds (selected at run time so that the boost changes the answer), invalidate, replace, and a query that repeats one word of another + long lists (130 matching entries, limits 99..1000, every request asked three times) + (thorough) of length <=4 over the 38+8 most colliding operations; entry points SearchWithOptionsAndCache and SearchWithOptionsAndMonitoring; cold and warm start; virtual clock. After every search the caller scrambles the slice it was given (as the CLI's in-place re-sort does), and the answer must equal, bit for bit, SearchUniversal on a freshly loaded copy of the current commands. evaluations = histories executed on the real objects (= traces validated); non-trivial = histories with a distinct sequence of answers",
 		Assume:    []string{"host pinned, map order pinned, clock virtual (vtime)", "non-finite option values are outside the option domain"},
 		QuickSecs: 300, ThorSecs: 2400,
 		Run: c05Run,
